@@ -50,6 +50,12 @@ Tpl(id) ==
                           rxns |-> <<Rx("v0", <<>>, <<"A">>, <<"k0">>),
                                      Rx("v1", <<"A">>, <<"B">>, <<"k1", "A">>),
                                      Rx("v2", <<"B">>, <<>>, <<"k2", "B">>)>>]
+      \* the chain with a compound whose name ends in an underscore next to its prefix (positions A__0.. and A___0..)
+      [] id = "under" -> [cpds |-> <<"A", "A_">>,
+                          init |-> [n \in {"A", "A_"} |-> IF n = "A" THEN 12 ELSE 3], pars |-> [k0 |-> 12, k1 |-> 1, k2 |-> 4],
+                          rxns |-> <<Rx("v0", <<>>, <<"A">>, <<"k0">>),
+                                     Rx("v1", <<"A">>, <<"A_">>, <<"k1", "A">>),
+                                     Rx("v2", <<"A_">>, <<>>, <<"k2", "A_">>)>>]
       [] id = "cycle" -> [cpds |-> <<"A", "B">>,
                           init |-> [A |-> 12, B |-> 6], pars |-> [k1 |-> 1, k2 |-> 2],
                           rxns |-> <<Rx("v1", <<"A">>, <<"B">>, <<"A", "k1">>),
